@@ -169,8 +169,10 @@ class ARMA:
             (self.ma_poly, np.zeros(len(self.ar_poly) - len(self.ma_poly)))
         )
         sys = ma_poly, self.ar_poly, 1
-        times, psi = dimpulse(sys, n=impulse_length)
-        psi = psi[0].flatten()  # Simplify return value into flat array
+        # dimpulse needs at least two time steps to build its time grid
+        times, psi = dimpulse(sys, n=max(impulse_length, 2))
+        # Simplify return value into flat array
+        psi = psi[0].flatten()[:impulse_length]
 
         return psi
 
